@@ -352,6 +352,128 @@ def factorization_kinds(ctx, rule='factorization-adequate-for-matrix-class'):
         raise AnalysisBroken('only %d wrapper instantiations analysed' % n)
 
 
+PASS_THROUGH = ('cast', 'selfadjointView', 'triangularView', 'transpose', 'adjoint', 'conjugate', 'array', 'matrix', 'eval', 'real', 'template',
+                'sparseView', 'toDenseMatrix', 'twistedBy', 'noalias', 'derived', 'diagonal', 'pruned')
+
+
+def _mdeg(fn, t, env):
+    """Degree of a matrix-valued normal form in the scale of the user's matrices (1 = scales like ||A||; shifts carry the unit of A):
+    0, 1, 2, .. or None when the form is outside the table."""
+    if not isinstance(t, tuple):
+        return None
+    if t[0] == 'lit':
+        return 0
+    if t in env:
+        return env[t]
+    if t[0] in ('Identity', 'setIdentity') or (t[0] == 'call' and t[1] in ('Identity',)):
+        return 1            # the identity stands for a matrix of the scale of A; the shift that multiplies it is a pure number
+    if t[0] in ('Zero',) or (t[0] == 'call' and t[1] in ('Zero',)):
+        return 0
+    if t[0] == 'ctor' and len(t) >= 3:
+        ds = [_mdeg(fn, u, env) for u in t[2:]]
+        ds = [d for d in ds if d is not None]
+        return max(ds) if ds else None
+    if t[0] in PASS_THROUGH and len(t) >= 2:
+        return _mdeg(fn, t[1], env)
+    if t[0] == 'u-':
+        return _mdeg(fn, t[1], env)
+    if t[0] == '*':
+        ds = [_mdeg(fn, u, env) for u in t[1:]]
+        return None if any(d is None for d in ds) else sum(ds)
+    if t[0] == '/' and len(t) == 3:
+        a, b = _mdeg(fn, t[1], env), _mdeg(fn, t[2], env)
+        return None if a is None or b is None else a - b
+    if t[0] in ('+', '-') and len(t) >= 3:
+        ds = [_mdeg(fn, u, env) for u in t[1:]]
+        if any(d is None for d in ds):
+            return None
+        return max(ds)          # A*A + s^2 I is of degree 2; a sum of degree-1 terms stays 1
+    return None
+
+
+def factorized_matrix_affine(ctx, rule='factorized-matrix-is-first-degree-in-the-stored-matrix'):
+    """"To backward-stable accuracy, for all shifts": a wrapper that solves with A - sigma I (or A - sigma B, or B) must hand its
+    factorization THAT matrix -- an expression of degree one in the stored matrices and the shift.  Factorizing a product of the
+    matrix with itself (the real normal-equation form (A - sr I)^2 + si^2 I of a complex shift, A'A for a least-squares detour)
+    is the same operator in exact arithmetic but squares the condition number: the forward error becomes eps cond^2, which for a
+    shift close to an eigenvalue (the very case shift-and-invert is used for) loses all digits while the direct form keeps half.
+    Degree analysis of the argument of every factorization call in the wrappers (matrices and the identity count one, shifts
+    are pure numbers); locals and fields are followed through their writes in the same function."""
+    n = 0
+    seen = set()
+    for fn in ctx.F.concrete():
+        cls = fn.cls or ''
+        if not cls.startswith('Spectra::') or fn.mangled in seen or not (cls.replace('Spectra::', '') in FACTORIZATION_KIND or cls.startswith('Spectra::SymShiftInvert')):
+            continue
+        seen.add(fn.mangled)
+        calls = [x for x in fn.walk() if x['k'] == 'CXXMemberCallExpr' and x.get('callee') in ('compute', 'factorize') and
+                 ('Eigen::' in (x.get('cls') or '') or x.get('cls') == 'Spectra::BKLDLT')]
+        if not calls:
+            continue
+        # environment: the stored matrix fields and matrix / shift parameters are of degree one
+        env = {}
+        rec = [r for r in ctx.F.records.values() if r['qname'] == fn.record and not r['dep']]
+        for f in (rec[0]['fields'] if rec else []):
+            if 'Ref<' in f['type'] or f['name'] in ('m_mat', 'm_matA', 'm_matB'):
+                env[('F', f['name'])] = 1
+            if f['name'].startswith('m_sigma'):
+                env[('F', f['name'])] = 0
+        for v in fn.params:
+            env[('P', fn.locals[v]['name'])] = 1 if 'Eigen::' in fn.locals[v].get('type', '') else 0
+        for x in fn.walk():
+            if x['k'] == 'CXXMemberCallExpr' and x.get('callee') == 'setIdentity':
+                r = fn.root_of(fn.call_object(x))
+                if r is not None and r[0] == 'local':
+                    env[('L', fn.locals[r[1]]['name'])] = 1
+        # locals and other fields: degree of everything written into them in this function (max over the writes)
+        changed = True
+        rounds = 0
+        while changed and rounds < 4:
+            changed = False
+            rounds += 1
+            for x in fn.walk():
+                tgt = rhs = None
+                if x['k'] in ('CXXOperatorCallExpr', 'BinaryOperator', 'CompoundAssignOperator') and x.get('op') in ('=', '+=', '-='):
+                    a = fn.call_args(x) if x['k'] == 'CXXOperatorCallExpr' else [fn.nodes[c] for c in x['c']]
+                    if len(a) == 2:
+                        r = fn.root_of(a[0])
+                        if r is not None and r[0] in ('local', 'field'):
+                            tgt, rhs = r, sym(fn, a[1], inline=False)
+                elif x['k'] == 'DeclStmt':
+                    for d in x.get('decls', []):
+                        if 'var' in d and 'init' in d and d['init'] >= 0:
+                            t = sym(fn, d['init'], inline=False)
+                            dg = _mdeg(fn, t, env)
+                            key = ('L', fn.locals[d['var']]['name'])
+                            if dg is not None and dg > env.get(key, -1) and 'Eigen::' in fn.locals[d['var']].get('type', ''):
+                                env[key] = dg
+                                changed = True
+                if tgt is not None:
+                    key = ('L', fn.locals[tgt[1]]['name']) if tgt[0] == 'local' else ('F', tgt[1])
+                    if key in env and key[0] == 'F' and (key[1] in ('m_mat', 'm_matA', 'm_matB')):
+                        continue
+                    dg = _mdeg(fn, rhs, env)
+                    if dg is not None and dg > env.get(key, -1):
+                        env[key] = dg
+                        changed = True
+        for c in calls:
+            args = fn.call_args(c)
+            if not args:
+                continue
+            t = sym(fn, args[0], inline=False)
+            dg = _mdeg(fn, t, env)
+            n += 1
+            inst = '%s::%s' % (cls.replace('Spectra::', ''), fn.name)
+            if dg is None:
+                raise AnalysisBroken('%s: cannot classify the factorized matrix `%s`' % (fn.qname, show(t)[:80]))
+            ctx.check(dg == 1, rule, inst, fn.qname,
+                      'factorizes `%s`: first degree in the stored matrix and the shift' % show(t)[:60] if dg == 1 else
+                      'factorizes `%s`, of degree %d in the stored matrix: the condition number of the factorized matrix is the %s power of that of the operator '
+                      'the wrapper documents -- forward error eps cond^%d instead of eps cond for shifts near an eigenvalue' % (show(t)[:60], dg, {2: 'second', 0: 'zeroth'}.get(dg, '%d-th' % dg), dg))
+    if n < 9:
+        raise AnalysisBroken('only %d factorization calls classified in the wrappers' % n)
+
+
 def element_accessor_diagonal_only(ctx, rule='element-accessor-used-on-diagonal-only'):
     n = 0
     for fn in ctx.F.concrete():
@@ -371,6 +493,7 @@ def element_accessor_diagonal_only(ctx, rule='element-accessor-used-on-diagonal-
 def run(ctx):
     stored_matrix_consumers(ctx)
     factorization_kinds(ctx)
+    factorized_matrix_affine(ctx)
     triangle_threading(ctx)
     shift_invert_typestate(ctx)
     element_accessor_diagonal_only(ctx)
